@@ -26,6 +26,8 @@ type WorkerArgs struct {
 	DeadlineS int  `json:"deadline_s"`
 	Enumerate string `json:"enumerate,omitempty"`
 	Serve     bool   `json:"serve,omitempty"`
+	VarMod    int    `json:"var_mod,omitempty"` // enumerate: this worker runs variants with number % VarMod == VarRem
+	VarRem    int    `json:"var_rem,omitempty"`
 }
 
 // runOne executes one run in a fresh synctest bubble.
